@@ -968,6 +968,11 @@ pub fn audit(ps: &[Port], sources: &BTreeMap<u64, BTreeSet<char>>) -> Vec<Findin
                 // Poseidon2 outputs (two rows, or both limbs of one row) share one slot, the
                 // first (creating) occurrence is turned into a reader as well
                 "npo:creators=0|several_npo_outputs_share_one_slot".to_string()
+            } else if f == "creator_mult_mismatch" && ["p2.out", "rc.out", "rcc.out"].iter().any(|r| v.iter().filter(|p| p.role == *r && p.mult == -1).count() >= 2 && !v.iter().any(|p| p.role == *r && p.mult >= 0)) {
+                // same root cause, seen when another port (a hinted coefficient aliased into the
+                // slot) still creates it: the first of the same-table output rows is committed as
+                // a reader although `ext_reads` never counted it
+                "npo:creator_mult_mismatch|several_npo_outputs_share_one_slot".to_string()
             } else if f == "creators>1" && src.contains('c') && creators.iter().any(|p| p.role == "rcc.coeff") {
                 // C12's npo_coeff root cause: the recompose/coeff row creates every coefficient in
                 // `hint_output_wids` although an ALU first use / an aliased table row creates it too
